@@ -11,7 +11,7 @@ use std::sync::Arc;
 
 pub const META_C06: PropMeta = PropMeta {
     level: "exploration",
-    rule: "inputs: files rendered by the reference encoder (4 hand-built 'kitchen sink' movies covering every box kind, 3 fragmented/segment variants, N seed-dependent generated movies) and 4 canned files; exhaustive single substitution of ~25 boundary values into every size/type/version/flags/count/length/offset/time field of the field map; aligned-word sweep over moov/moof of the canned files; pairwise substitution inside a box and with the parent's size field (strided in quick); box-tree surgery (delete/duplicate/truncate/zero/nest/swap, with and without ancestor size fix-up); every prefix of three files; proptest havoc (1..6 byte/word/insert/delete/copy operations snapped to field starts). Each input goes through driver::exercise: read_header, read_fragment_header against two init segments, two media segments against the input, every accessor, sample_offset/read_sample for ids {0,1..min(count,64),count-1,count,count+1,2^31,u32::MAX} and a missing track, to_json/summary of every parsed box; every call under catch_unwind, in a wrapping and an overflow-checked build; process death is caught and re-confirmed by the supervisor. Non-trivial = the input differs from its base, the open call performed >= 4 stream operations, and (some open succeeded or it failed after >= 8 operations). Distinct = content hash.",
+    rule: "inputs: files rendered by the reference encoder (4 hand-built 'kitchen sink' movies covering every box kind, 3 fragmented/segment variants, N seed-dependent generated movies) and 4 canned files; exhaustive single substitution of ~25 boundary values into every size/type/version/flags/count/length/offset/time field of the field map; aligned-word sweep over moov/moof of the canned files; pairwise substitution inside a box and with the parent's size field (strided in quick); box-tree surgery (delete/duplicate/truncate/zero/nest/swap, with and without ancestor size fix-up); every prefix of three files; cross-box field pairs; consistent inflation (a count raised together with the sizes of its box and of its k nearest ancestors, every k); chains of thousands of minimal containers; proptest havoc (1..6 byte/word/insert/delete/copy operations snapped to field starts); 'structures': valid generated movies with unusual legal content (handler names of any length/script incl. counted-string lookalikes, samples above 64 KiB, final mdat of size 0, 64-bit headers in udta); C06 also 'spec-boxes': the stand-alone box decoders on generated values of all 46 box kinds and byte-mutated versions. Each input goes through driver::exercise: read_header, read_fragment_header against two init segments, two media segments against the input, every accessor, sample_offset/read_sample for ids {0,1..min(count,64),count-1,count,count+1,2^31,u32::MAX} and a missing track, to_json/summary of every parsed box; every call under catch_unwind, in a wrapping and an overflow-checked build; process death is caught and re-confirmed by the supervisor. Non-trivial = the input differs from its base, the open call performed >= 4 stream operations, and (some open succeeded or it failed after >= 8 operations). Distinct = content hash.",
     assumptions: &["absence of panics is only shown for the explored inputs", "stack overflow would surface as SIGSEGV of a worker (observed, not generated on purpose)"],
 };
 
@@ -201,6 +201,75 @@ pub fn run_adv(ctx: &mut Ctx, oracle: Oracle, weight: fn(FieldKind) -> u32, nt_k
         observe(ctx, case, &ex, &[], &bases3[case.base]);
         oracle(ctx, case, &ex)
     });
+    // ---- valid files with unusual but legal content (not derived from a base by mutation) ----
+    ctx.stage("structures");
+    let cases = ctx.pick(24_000u32, 240_000u32) / ctx.nshards;
+    let bases4 = bases.clone();
+    ctx.run_prop(structure_strategy(), cases, |ctx, case| {
+        let ex = driver::exercise(&case.bytes, &cx);
+        if ex.opened {
+            ctx.count("structures:opened");
+        }
+        observe(ctx, case, &ex, &[], &bases4[0]);
+        oracle(ctx, case, &ex)
+    });
+}
+
+/// reference-encoded movies (sample tables, fragments, metadata) whose free-form content is drawn
+/// from the odd corners: handler names of every length and script, counted-string lookalikes,
+/// samples around 64 KiB, an mdat that extends to the end of the file, 64-bit headers in udta
+fn structure_strategy() -> impl Strategy<Value = AdvCase> {
+    use crate::gen;
+    let movie = prop_oneof![
+        3 => gen::with_big_sample(gen::table_movie(3, 10), 0.01),
+        3 => gen::with_big_sample(gen::frag_movie(3, 3, 4), 0.01),
+    ];
+    (movie, prop::option::weighted(0.5, gen::meta_strategy()), prop::option::weighted(0.7, crate::boxes::text()), crate::boxes::text()).prop_map(|(mut m, meta, name, meta_name)| {
+        m.hdlr_name = name;
+        if let Some((mut me, _)) = meta {
+            me.hdlr_name = meta_name;
+            m.meta = Some(me);
+        }
+        let b = crate::refmp4::movie::build(&m);
+        AdvCase { bytes: b.bytes, desc: "generated valid structure".to_string(), touched: vec![], base: 0 }
+    })
+}
+
+/// C06 at box level: the stand-alone decoders (`ReadBox::read_box`, public API) on reference
+/// encodings of generated box values and on byte-mutated versions of them; only panics count here
+/// (what the decoder returns is C04/C05's subject).
+fn run_spec_boxes(ctx: &mut Ctx) {
+    use crate::boxes::{self, KINDS};
+    use crate::props::c04::Case as BoxCase;
+    ctx.stage("spec-boxes");
+    let per_kind = (ctx.pick(600u32, 6000u32) / ctx.nshards).max(6);
+    for kind in KINDS {
+        let s = (boxes::strategy(kind, 2), prop::collection::vec((any::<u16>(), prop_oneof![Just(0u8), Just(1u8), Just(0xffu8), Just(0x7fu8), Just(0x80u8), any::<u8>()]), 0..4)).prop_map(|(spec, muts)| BoxCase { spec, muts, mode: 1 });
+        ctx.run_prop(s, per_kind, |ctx, c| spec_box_oracle(ctx, c));
+    }
+}
+
+fn spec_box_oracle(ctx: &mut Ctx, c: &crate::props::c04::Case) -> Check {
+    use crate::libbox::{self, Converse, Visitor};
+    let kind = c.spec.kind();
+    let mut b = c.spec.node().render();
+    if b.len() > 8 {
+        for (pf, val) in &c.muts {
+            let pos = 8 + ((*pf as usize * (b.len() - 8)) >> 16);
+            b[pos] = *val;
+        }
+    }
+    ctx.count(&format!("spec-boxes:{}", if c.muts.is_empty() { "reference-bytes" } else { "mutated-bytes" }));
+    ctx.nontrivial(crate::engine::fnv64(&b) ^ 0x5bec);
+    let mut cv = Converse { kind, bytes: &b, compare_bytes: false, accepted: false, reencoded: false };
+    let r = match libbox::with_lib(&c.spec, &mut cv) {
+        Some(r) => r,
+        None => cv.visit(&libbox::dinf_witness()),
+    };
+    match r {
+        Err(f) if f.sig.starts_with("panic@read_box") => Err(f),
+        _ => Ok(()),
+    }
 }
 
 fn w_all(_k: FieldKind) -> u32 {
@@ -215,6 +284,7 @@ fn w_c08(k: FieldKind) -> u32 {
 
 pub fn run_c06(ctx: &mut Ctx) {
     run_adv(ctx, oracle_c06, w_all, &[], 40);
+    run_spec_boxes(ctx);
 }
 pub fn run_c07(ctx: &mut Ctx) {
     run_adv(ctx, oracle_c07, w_c07, &[FieldKind::Size, FieldKind::LargeSize, FieldKind::Count, FieldKind::Length, FieldKind::Offset, FieldKind::Version, FieldKind::Word], 6000);
@@ -223,7 +293,11 @@ pub fn run_c08(ctx: &mut Ctx) {
     run_adv(ctx, oracle_c08, w_c08, &[FieldKind::Size, FieldKind::LargeSize, FieldKind::Count, FieldKind::Length, FieldKind::Word], 40);
 }
 
-pub fn replay(ctx: &mut Ctx, _stage: &str, case: &Value) -> Check {
+pub fn replay(ctx: &mut Ctx, stage: &str, case: &Value) -> Check {
+    if stage == "spec-boxes" {
+        let c: crate::props::c04::Case = serde_json::from_value(case.clone()).map_err(|e| Failure::new("replay:bad-case", e.to_string()))?;
+        return spec_box_oracle(ctx, &c);
+    }
     let c = adv::case_from_json(case).ok_or_else(|| Failure::new("replay:bad-case", "no hex field"))?;
     let ex = driver::exercise(&c.bytes, &adv::driver_context());
     match ctx.prop.clone().as_str() {
